@@ -161,15 +161,81 @@ fn build(tier: Tier) -> Vec<Scenario> {
             out.push(s);
         }
     }
+    // frames of very different sizes on one multiplexed connection: payloads of a few bytes
+    // alternate with payloads larger than any staging buffer (9000 and 20000 bytes), one element
+    // per batch, tiny socket buffers so that the multiplexer's queue fills up
+    for (layout, sizes) in [
+        (Layout::Remote(vec![1, 1]), vec![1usize, 1, 1, 9000, 1, 1, 1, 20000, 1, 1]),
+        (Layout::Remote(vec![1, 1]), vec![9000, 1, 1, 1, 9000, 9000, 1, 1]),
+        (Layout::Remote(vec![2, 1]), vec![1, 1, 1, 1, 9000, 1, 1, 9000, 1, 1, 1, 1]),
+    ] {
+        out.push(mixed_frames_scenario(layout, sizes, if tier == Tier::Quick { 1 } else { 2 }));
+    }
     out.extend(super::c02_e2::scenarios(tier));
     out
+}
+
+fn mixed_frames_scenario(layout: Layout, sizes: Vec<usize>, bound: usize) -> Scenario {
+    use renoir::operator::StreamElement;
+    use renoir::prelude::*;
+    let name = format!("C02/mixed-frame-sizes/{}/{:?}", layout.name(), sizes).replace(' ', "");
+    let descr = format!("source replica 0 emits byte vectors of lengths {:?}, one per batch, through a shuffle on layout {} with 64-byte socket buffers", sizes, layout.name());
+    let (l2, s2) = (layout.clone(), sizes.clone());
+    let body: crate::rt::Body = Arc::new(move || {
+        let sizes = s2.clone();
+        let res = crate::kit::run_hosts(
+            &l2,
+            Arc::new(move |_host, env| {
+                let script: Vec<StreamElement<Vec<u8>>> = sizes.iter().enumerate().map(|(i, n)| StreamElement::Item(vec![i as u8; *n])).collect();
+                env.stream(crate::kit::ScriptSource::new(vec![script], renoir::Replication::Unlimited))
+                    .batch_mode(BatchMode::single())
+                    .shuffle()
+                    .for_each(|_| {});
+                env.execute_blocking();
+            }),
+        );
+        for (h, r) in res.into_iter().enumerate() {
+            if let Some(p) = r {
+                crate::rt::log(Ev::Text("host-panic", format!("{h}: {p}")));
+            }
+        }
+    });
+    let d2 = descr.clone();
+    let check: Check = Arc::new(move |r| {
+        link_monitor(r).map_err(|f| Fail::new(f.sig.clone(), format!("{d2}: {}", f.msg.chars().take(600).collect::<String>())))?;
+        if r.status != Status::Done {
+            return Err(Fail::new("c02-mixed-abnormal", format!("{d2}: {:?}", r.status)));
+        }
+        if let Some(Ev::Text(_, t)) = r.log.iter().find(|e| matches!(e, Ev::Text("host-panic", _))) {
+            return Err(Fail::new("c02-mixed-panic", format!("{d2}: {t}")));
+        }
+        Ok(hash_of(&r.trace.len()))
+    });
+    let mut params = env_params(&JobCfg { layout, batch: BatchMode::single(), capacity: 0 });
+    params.observe_links = true;
+    params.pipe_capacity = 64;
+    Scenario {
+        name,
+        descr,
+        params,
+        body,
+        check,
+        bound,
+        orders: ORDERS3.to_vec(),
+        max_execs: 0,
+        shards: 1,
+        nontrivial: true,
+        unbounded: false,
+        loop_body: false,
+        sometimes: vec![],
+    }
 }
 
 pub fn spec() -> PropSpec {
     PropSpec {
         id: "C02",
         build,
-        rule: "jobs with all-to-all, keyed, broadcast, two-downstream-block, join and loop-feedback links on local (2-3 replicas, capacity 1 or 16) and remote layouts (1+1, 2+1, 1+2 cores; two local replicas share one multiplexed connection; short reads/writes and 64-byte socket buffers as deviations): in every schedule within the bound the observer hook in NetworkSender::send / NetworkReceiver::recv* sees, per (producer replica, endpoint), the received elements as a prefix of the sent ones at every instant and equal at the end (bincode bytes, order, endpoint, sender); plus exhaustive Batcher operation sequences and every segmentation of framed messages through remote_send/remote_recv; non-trivial = non-empty input",
+        rule: "jobs with all-to-all, keyed, broadcast, two-downstream-block, join and loop-feedback links on local (2-3 replicas, capacity 1 or 16) and remote layouts (1+1, 2+1, 1+2 cores; two local replicas share one multiplexed connection; short reads/writes and 64-byte socket buffers as deviations): in every schedule within the bound the observer hook in NetworkSender::send / NetworkReceiver::recv* sees, per (producer replica, endpoint), the received elements as a prefix of the sent ones at every instant and equal at the end (bincode bytes, order, endpoint, sender); frames of a few bytes alternating with frames of 9000 / 20000 bytes on one multiplexed connection; plus exhaustive Batcher operation sequences and every segmentation of framed messages through remote_send/remote_recv; non-trivial = non-empty input",
         assumptions: &["deviation bound as reported", "TCP is modelled as a reliable byte stream with arbitrary segmentation"],
         exhaustive_when_uncapped: false,
         budget_s: (50, 1200),
